@@ -673,7 +673,21 @@ namespace xv
         static thread_local HangSlot* p = &hang_slots()[next++ % 256];
         return *p;
     }
-    // runs one array kernel; returns 0 normally, 1 = unsupported combination, 2 = other assertion failure
+    // CPU time of this thread over one array-kernel call (a block of at most a few 10^5 lane operations: milliseconds for
+    // every operation of the library). A call above the limit means work that grows with the magnitude of an argument (a loop
+    // or recursion over a data-dependent bound); thread CPU time does not count the time the thread was descheduled.
+    static constexpr double CALL_CPU_LIMIT_S = 0.5;
+    inline std::atomic<uint64_t>& max_call_cpu_us()
+    {
+        static std::atomic<uint64_t> m { 0 };
+        return m;
+    }
+    inline double& last_call_cpu_s()
+    {
+        static thread_local double v = 0;
+        return v;
+    }
+    // runs one array kernel; returns 0 normally, 1 = unsupported combination, 2 = other assertion failure, 3 = over the CPU-time limit
     inline int guarded_call(xv_fn fn, const void* const* in, void* const* out, size_t n, xv_ctx* ctx, const xv_op* op = nullptr, int module = -1)
     {
         AssertTrap& T = assert_trap();
@@ -685,11 +699,21 @@ namespace xv
         int tr = sigsetjmp(T.env, 0);
         if (tr == 0)
         {
+            timespec c0, c1;
+            clock_gettime(CLOCK_THREAD_CPUTIME_ID, &c0);
             T.armed = true;
             fn(in, out, n, ctx);
             T.armed = false;
             H.t0 = 0;
-            return 0;
+            clock_gettime(CLOCK_THREAD_CPUTIME_ID, &c1);
+            const double cpu = (double)(c1.tv_sec - c0.tv_sec) + 1e-9 * (double)(c1.tv_nsec - c0.tv_nsec);
+            last_call_cpu_s() = cpu;
+            const uint64_t us = (uint64_t)(cpu * 1e6);
+            uint64_t cur = max_call_cpu_us().load();
+            while (us > cur && !max_call_cpu_us().compare_exchange_weak(cur, us))
+            {
+            }
+            return cpu > CALL_CPU_LIMIT_S ? 3 : 0;
         }
         T.armed = false;
         H.t0 = 0;
@@ -810,6 +834,7 @@ namespace xv
         ViolationLog log;
         int nthreads = 16;
         double deadline = 0; // absolute time; 0 = none
+        bool timing_only = false; // C14 over the exact operations: every call is executed and timed, results are not judged
         std::atomic<bool> expired { false };
         std::mutex sample_mu;
         std::vector<Sample> samples;
@@ -837,6 +862,18 @@ namespace xv
                 if (int tr = guarded_call(im.op->fn, use_in, out, n, &ctx, im.op, im.module))
                 {
                     assert_failed(G, O, ii, tr);
+                    continue;
+                }
+                if (timing_only)
+                {
+                    // every lane result is still folded into the outcome set (a vacuous driver stays visible)
+                    for (size_t base = 0; base + 2 * L <= n; base += 2 * L)
+                    {
+                        const size_t osz0 = (size_t)xv_type_size[sig.out_t[0]];
+                        uint64_t hsh = mix64(load_bits((const char*)out[0] + base * osz0, (int)osz0) + 0x1234567) & 1023;
+                        O.outbits[hsh >> 6] |= 1ull << (hsh & 63);
+                    }
+                    O.compared += n;
                     continue;
                 }
                 uint64_t cmp = 0;
@@ -894,8 +931,15 @@ namespace xv
             v.prop = O.prop;
             v.op = O.name;
             v.arch = mods[(size_t)im.module].arch;
-            v.oracle = "assertion inside the kernel";
-            v.note = std::string("assertion failed: ") + assert_trap().msg;
+            v.oracle = kind == 3 ? "thread CPU time of one block of kernel calls" : "assertion inside the kernel";
+            if (kind == 3)
+            {
+                char b[200];
+                snprintf(b, sizeof b, "one block of kernel calls took %.2f s of CPU time (limit %.1f s; the library needs milliseconds): running time grows with the operands", last_call_cpu_s(), CALL_CPU_LIMIT_S);
+                v.note = b;
+            }
+            else
+                v.note = std::string("assertion failed: ") + assert_trap().msg;
             v.elem = G.sig.elem;
             v.lanes = im.op->lanes;
             v.out_type = G.sig.out_t[0];
